@@ -13,8 +13,10 @@ SEARCH = {
     "C01": [["diff", "C01", "3", "3"]],
     "C02": [["diff", "C02", "3", "3"]],
     "C03": [["diff", "C03", "3", "3"]],
-    "C04": [["escape", "both", "3"]],
+    "C04": [["escape", "both", "3"], ["glob", "4"]],
     "C05": [["validate"]],
+    "C06": [["markdown"], ["leaves", "markdown"]],
+    "C07": [["leaves", "cram"]],
     "C11": [["escape", "both", "3"]],
     "C16": [["config"]],
     "C08": [["c08", "4"]],
@@ -29,7 +31,9 @@ THOROUGH = {
     "C01": [["diff", "C01", "3", "4"]],
     "C02": [["diff", "C02", "3", "4"]],
     "C03": [["diff", "C03", "3", "4"]],
-    "C04": [["axioms"], ["escape", "both", "3"]],
+    "C04": [["axioms"], ["escape", "both", "3"], ["glob", "6"]],
+    "C06": [["markdown"], ["leaves", "markdown"]],
+    "C07": [["leaves", "cram"]],
     "C05": [["validate"]],
     "C11": [["axioms"], ["escape", "both", "4"]],
     "C16": [["config"]],
